@@ -21,6 +21,9 @@ pub struct Case {
     pub cred_base: BSpec,
     pub ctx: Option<BSpec>,
     pub explicit_server_id: bool,
+    /// every user has an explicit client identity (alice / bob / carol) instead of the default
+    #[serde(default)]
+    pub explicit_client_id: bool,
     /// all start calls draw from ONE rng (in the generated order) instead of one tape each
     pub share_rng: bool,
     /// seed of the generated call order
@@ -41,16 +44,18 @@ pub fn strategy(_s: &'static dyn Proto) -> BoxedStrategy<Case> {
         gen::opt_ctx(gen::bytes_small()),
         any::<bool>(),
         any::<bool>(),
+        any::<bool>(),
         any::<u64>(),
         gen::tape_plain(),
     )
-        .prop_map(|(pw_a, pw_b, pw_x, cred_base, ctx, explicit_server_id, share_rng, order, tape)| Case {
+        .prop_map(|(pw_a, pw_b, pw_x, cred_base, ctx, explicit_server_id, explicit_client_id, share_rng, order, tape)| Case {
             pw_a,
             pw_b,
             pw_x,
             cred_base,
             ctx,
             explicit_server_id,
+            explicit_client_id,
             share_rng,
             order,
             tape,
@@ -93,8 +98,12 @@ pub fn check(s: &'static dyn Proto, c: &Case, st: &mut Stats, _k: &KnownFindings
     let creds: [Vec<u8>; 3] = [mk(b"A"), mk(b"B"), mk(b"C")];
     let ctx = c.ctx.as_ref().map(|b| b.bytes());
     let sid = if c.explicit_server_id { Some(b"the-server".to_vec()) } else { None };
-    let ids = Ids {
-        client: None,
+    // explicit client identities: one name per user (A and its re-registration: alice, B: bob,
+    // C: carol; an absent record is served under "nobody"); sessions 0, 1, 3 belong to alice, 2 to bob
+    let names: [&[u8]; 5] = [b"alice", b"bob", b"carol", b"alice", b"nobody"];
+    let sess_name: [&[u8]; 4] = [b"alice", b"alice", b"bob", b"alice"];
+    let ids_for = |name: &'static [u8]| Ids {
+        client: if c.explicit_client_id { Some(name) } else { None },
         server: sid.as_deref(),
     };
     let e = |what: &str, x: PErr| Fail::new(format!("honest step failed ({what}): {x:?}"));
@@ -113,7 +122,7 @@ pub fn check(s: &'static dyn Proto, c: &Case, st: &mut Stats, _k: &KnownFindings
             .map_err(|x| e("client reg start", x))?;
         let resp = s.server_reg_start(&setup, &req, &creds[*ci]).map_err(|x| e("server reg start", x))?;
         let fin = s
-            .client_reg_finish(cst, if c.share_rng { &mut shared } else { &mut own2 }, pw, &resp, ids, None)
+            .client_reg_finish(cst, if c.share_rng { &mut shared } else { &mut own2 }, pw, &resp, ids_for(names[i]), None)
             .map_err(|x| e("client reg finish", x))?;
         records.push(Some(s.server_reg_finish(&fin.upload)));
     }
@@ -161,7 +170,7 @@ pub fn check(s: &'static dyn Proto, c: &Case, st: &mut Stats, _k: &KnownFindings
                 &reqs[j].0,
                 &creds[ci],
                 ctx.as_deref(),
-                ids,
+                ids_for(names[r]),
             )
             .map_err(|x| e("server login start", x))?;
         sessions.push(Sess { key: (j, r, ci), resp, state });
@@ -179,8 +188,9 @@ pub fn check(s: &'static dyn Proto, c: &Case, st: &mut Stats, _k: &KnownFindings
     for (k, se) in sessions.iter().enumerate() {
         let (j, r, ci) = se.key;
         for i in 0..4 {
-            let model = j == i && rec_pw[r].map(|p| p == sess_pw[i]).unwrap_or(false) && rec_cred[r] == Some(ci);
-            let res = s.client_login_finish(s.clone_obj(&reqs[i].1), sess_pw[i], &se.resp, ctx.as_deref(), ids, None);
+            let name_ok = !c.explicit_client_id || names[r] == sess_name[i];
+            let model = j == i && rec_pw[r].map(|p| p == sess_pw[i]).unwrap_or(false) && rec_cred[r] == Some(ci) && name_ok;
+            let res = s.client_login_finish(s.clone_obj(&reqs[i].1), sess_pw[i], &se.resp, ctx.as_deref(), ids_for(sess_name[i]), None);
             st.eval(1);
             let in_order_honest = j == i && rec_cred[r] == Some(ci);
             if !in_order_honest {
@@ -246,8 +256,10 @@ pub fn check(s: &'static dyn Proto, c: &Case, st: &mut Stats, _k: &KnownFindings
             );
         }
     }
-    // the model expects 3 acceptable records for sessions 0,1 (A, A', C) and 1 for session 2
-    ensure_eq!(done.len(), 7, "number of completed conversations (model: 3 + 3 + 1 + 0)");
+    // the model expects 3 acceptable records for sessions 0,1 (A, A', C) and 1 for session 2; with
+    // explicit client identities carol's record no longer matches alice's sessions (2 + 2 + 1)
+    let expected = if c.explicit_client_id { 5 } else { 7 };
+    ensure_eq!(done.len(), expected, "number of completed conversations (model)");
     st.nontrivial_bulk(hash_of(&(m.name, c)), nontrivial);
     st.label(if c.share_rng { "rng:shared" } else { "rng:per-call" });
     st.sample(|| json!({"suite": m.name, "share_rng": c.share_rng, "client_start_order": order,
@@ -264,7 +276,7 @@ pub const BUDGET: Budget = Budget {
 pub fn run(cfg: &RunCfg) -> (Outcome, EvidenceExtra) {
     let out = run_property(cfg, "C07", crate::suites::suites20(), BUDGET, strategy, check);
     let ev = EvidenceExtra {
-        rule: "case = history on one server: registrations {A(pwA,credA), B(pwB,credB), C(pwA,credC), A'(re-registration of A), none} whose three credential identifiers share a generated prefix of 0..1000 bytes and differ in the last byte, client sessions {A, A again, B, A with a wrong password} started in a generated order, every (request, record, credential id) server session (4*5*3 = 60) started in a generated order; all start calls draw either from one shared RNG or from a tape each (generated). Enumerated exhaustively per history: every response delivered to every client session (240 finishes on clones) and every resulting finalization delivered to every pending server session. Oracle = explicit model: client i accepts the response (request j, record, cred) iff j = i, the record exists, its password is the session's and cred is the record's; server session k completes only on the finalization produced from its own response; keys agree within a completed session; all completed sessions have pairwise distinct session keys; both directions asserted (exactly 7 conversations complete). evaluation = one delivery; non-trivial = deliveries that are not the in-order honest ones; distinct per (suite, case)".into(),
+        rule: "case = history on one server: registrations {A(pwA,credA), B(pwB,credB), C(pwA,credC), A'(re-registration of A), none} whose three credential identifiers share a generated prefix of 0..1000 bytes and differ in the last byte, client sessions {A, A again, B, A with a wrong password} started in a generated order, every (request, record, credential id) server session (4*5*3 = 60) started in a generated order; identities are either the defaults or one explicit client name per user (generated); all start calls draw either from one shared RNG or from a tape each (generated). Enumerated exhaustively per history: every response delivered to every client session (240 finishes on clones) and every resulting finalization delivered to every pending server session. Oracle = explicit model: client i accepts the response (request j, record, cred) iff j = i, the record exists, its password is the session's and cred is the record's; server session k completes only on the finalization produced from its own response; keys agree within a completed session; all completed sessions have pairwise distinct session keys; both directions asserted (exactly 7 conversations complete). evaluation = one delivery; non-trivial = deliveries that are not the in-order honest ones; distinct per (suite, case)".into(),
         assumptions: vec!["routing is exhaustive for the bounded population; histories (orders, RNG sharing, inputs) are sampled".into()],
         exhaustive: Some(true),
         extra: [("exhaustive_part".to_string(), json!("all routings of the bounded population, per generated history"))].into_iter().collect(),
